@@ -41,6 +41,9 @@ def run(ctx):
         dd = ctx.rundir("escalate_" + label)
         vlib.run_driver(ctx, binp, "record", dd + "/t.ndjson", n=400, extra_env={"VERIF_ESCALATE": "1"})
         return vlib.read_ndjson(dd + "/t.ndjson")
+    vlib.call_history_model(ctx)
+    for label, binp, evs in work:
+        vlib.call_histories(ctx, binp, [e for e in evs if e.get("t") == 2], ["ecb.hom"], "ECTrace", "koblitzCurve result is not the group law (%s copy)" % label)
     ec.judge(ctx, work, "koblitzCurve result is not the group law (wrong point, nil result or panic)", escalate=escalate)
     return vlib.finish(ctx, LEVEL, RULE, ec.ASSUME, matchers=ec.MATCHERS,
                        technique="TLA+ spec ECGroup: TLC model of the group axioms on toy curves; complete toy tables replayed through the real generic code (both copies); real-size results verified by TLC via certificates")
